@@ -12,10 +12,10 @@ import (
 // genJoinCase writes one case of the join streams. Stream `join` keeps the barrier discipline (a key
 // is changed by one sub-collection at a time between barriers while subscribers exist); `joinr` does not.
 func genJoinCase(r *wire.Rng, n int, stream string, w *wire.Out) {
-	racy := stream == "joinr" || stream == "joinm" // joinm: no discipline needed, changes come back to back
+	racy := stream == "joinr" || stream == "joinm" || strings.HasPrefix(stream, "joinn") // joinm/joinn: no per-key discipline needed
 	ncols := 2 + r.Intn(2)
 	head := []string{"case", fmt.Sprint(n), stream, strconv.Itoa(ncols)}
-	if stream == "joinr" {
+	if stream == "joinr" || stream == "joinnr" {
 		head = append(head, "jr")
 	}
 	unchecked := false
@@ -35,7 +35,8 @@ func genJoinCase(r *wire.Rng, n int, stream string, w *wire.Out) {
 		return h % ncols
 	}
 	jr := newJoinRunState(ncols, stream == "joinr")
-	jr.merge = stream == "joinm"
+	nested := strings.HasPrefix(stream, "joinn")
+	jr.merge = stream == "joinm" || nested
 	var lines []string
 	emit := func(toks ...string) { lines = append(lines, strings.Join(toks, " ")) }
 	emit(head...)
@@ -83,10 +84,13 @@ func genJoinCase(r *wire.Rng, n int, stream string, w *wire.Out) {
 		for _, ns := range nss {
 			emit("lookup", ns)
 		}
+		for _, v := range vals {
+			emit("vlookup", v)
+		}
 		for _, s := range subs {
 			emit("stream", s)
 		}
-		if stream == "joinr" {
+		if stream == "joinr" || stream == "joinnr" {
 			emit("ulist")
 			for _, ns := range nss {
 				emit("ulookup", ns)
@@ -114,6 +118,13 @@ func genJoinCase(r *wire.Rng, n int, stream string, w *wire.Out) {
 	for i, k := 0, r.Intn(7); i < k; i++ {
 		set(r.Intn(ncols), mkObj())
 	}
+	if nested {
+		for i := 0; i < ncols; i++ {
+			if r.Chance(60, 100) {
+				emit("o.add", strconv.Itoa(i))
+			}
+		}
+	}
 	emit("start")
 	jr.startState()
 	for i, k := 0, r.Intn(3); i < k; i++ {
@@ -122,6 +133,17 @@ func genJoinCase(r *wire.Rng, n int, stream string, w *wire.Out) {
 	nops := 3 + r.Intn(35)
 	for i := 0; i < nops; i++ {
 		x := r.Intn(100)
+		if nested && r.Chance(15, 100) {
+			// the outer collection changes between quiescent points only (see notes: F13)
+			if stream == "joinnr" { // F13: the outer collection changes while events are in flight
+				emit(wire.Pick(r, []string{"o.add", "o.add", "o.del", "o.touch"}), strconv.Itoa(r.Intn(ncols)))
+				continue
+			}
+			emit("sync")
+			emit(wire.Pick(r, []string{"o.add", "o.add", "o.del", "o.touch"}), strconv.Itoa(r.Intn(ncols)))
+			emit("sync")
+			continue
+		}
 		switch {
 		case x < 45:
 			o := mkObj()
